@@ -62,7 +62,7 @@ fn well_formed(conv: &Beatmap) -> Option<String> {
 
 fn main() {
     let ctx = Ctx::from_env("C19");
-    ctx.rule("case = osu!standard grammar map (kinds circle / sliders / buzz / long slider / spinner; hit sounds {0,2,4,8,12}; gaps; stacked / far positions; timing presets with velocity points; format versions 14 and 7); per case: taiko, catch and mania conversion under no key mod and 1K-10K; oracle = times non-decreasing, durations >= 0, control points strictly ordered; taiko: one hit sound per object, and the (time, kind, sound) list equals the single-object converts merged stably by time; mania: cs == key mod value else in [4,7], every x maps to a column < cs (floor(x*cs/512)), x finite and >= 0; catch: objects and sounds untouched; non-trivial = map has objects");
+    ctx.rule("case = osu!standard grammar map (kinds circle / sliders / buzz / long slider / spinner; hit sounds {0,2,4,8,12}; gaps; stacked / far positions; timing presets with velocity points; format versions 14 and 7); per case: taiko, catch and mania conversion under no key mod and 1K-10K; oracle = times non-decreasing, durations >= 0, control points strictly ordered; taiko: one hit sound per object, and the (time, kind, sound) list equals the single-object converts merged stably by time; mania: cs == key mod value else in [4,7], every x maps to a column < cs (floor(x*cs/512)), x finite and >= 0; catch: objects and sounds untouched; universe 'backward-spinners': spinners ending before / at their start among circles and sliders; non-trivial = map has objects");
 
     // quick: N <= 3 over the 48-symbol alphabet; thorough: N <= 3 over the 240-symbol alphabet and N <= 4 over the 48-symbol one
     use vh::gen::DiffPreset as DP;
@@ -169,6 +169,27 @@ fn main() {
         }
     }
       }
+    // spinners that end before or exactly when they start, among circles and sliders: durations of every convert stay >= 0
+    {
+        let alpha = vh::gen::Alphabet::product(&[Kind::Circle, Kind::Slider2, Kind::SpinnerBack(800), Kind::Spinner(0), Kind::SpinnerBack(1)], &[150, 1000], &[PosK::Far], &[0, 8], &[0]);
+        let n_max = ctx.pick(3u32, 4);
+        ctx.universe(&format!("backward-spinners/N<={n_max}/|A|={}", alpha.len()), alpha.count_upto(n_max), |idx, l| {
+            let spec = vh::gen::MapSpec::new(0, alpha.seq(idx, n_max));
+            let map = spec.decode();
+            l.states(1);
+            if !map.hit_objects.is_empty() {
+                l.nontrivial();
+            }
+            for target in [GameMode::Taiko, GameMode::Catch, GameMode::Mania] {
+                let c = map.clone().convert(target, &ModSpec::Bits(0).build(target)).expect("convertible");
+                l.checked(1);
+                if let Some(msg) = well_formed(&c) {
+                    l.violation("backward_spinner_form", || format!("{target:?} convert: {msg}\nspec={}\n--- .osu ---\n{}", spec.describe(), spec.text()));
+                    return;
+                }
+            }
+        });
+    }
     // dense streams: a <= 1 object prefix + a stream of circles (plain / finish + clap sounds / overlapping / stacked),
     // 8 difficulty presets (the pattern generators' RNG is seeded from them), every key mod
     {
